@@ -1,3 +1,4 @@
+import Sparrow.Proofs.LegKernelEquiv
 import Sparrow.Proofs.KernelEquiv
 import Sparrow.Model.Exchange
 import Sparrow.Model.Collect
@@ -94,3 +95,16 @@ theorem collectReceiverEnergy_band_local (P B S : Nat) (E E' : Nat → Nat → N
   Sparrow.collectReceiverEnergy_band_local P B S E E' s0 dist c dt s1 att att' i b t hi hb hE ha
 
 end Sparrow.Props.C12.Kernels
+
+namespace Sparrow.Props.C12.SourceLeg
+open Sparrow Sparrow.Generated.LegKernels
+
+/-- **band independence of the source leg** (C12): band `b` of the output depends on band `b` of the attenuation only -/
+theorem source2patch_band_local (pt : (Nat → ℝ) → (Nat → Nat → ℝ) → ℝ) (P B B' : Nat) (src : Nat → ℝ)
+    (pc : Nat → Nat → ℝ) (pp : Nat → Nat → Nat → ℝ) (vis : Nat → Bool) (m m' : Nat → ℝ)
+    (s0 s1 s2 s3 s4 s4' : Nat) (j b b' : Nat) (hj : j < P) (hb : m b = m' b') :
+    (source2patchEnergyUniversal pt 3 src P 3 pc s0 s1 s2 pp s3 vis s4 (some m) B).1 j b =
+      (source2patchEnergyUniversal pt 3 src P 3 pc s0 s1 s2 pp s3 vis s4' (some m') B').1 j b' :=
+  Sparrow.source2patch_band_local pt P B B' src pc pp vis m m' s0 s1 s2 s3 s4 s4' j b b' hj hb
+
+end Sparrow.Props.C12.SourceLeg
